@@ -14,7 +14,11 @@ def worker(sh):
     rng = sh.rng
     sc = wkd.Script(rng)
     l = [3, 3, 3, 1, 2, 4, 5, 33, 8, 8, 12, 20, 6, 3, 65, 8][sh.index]
-    sc.setup(0, l, True)
+    # two shards run hierarchies WITHOUT signature support: signing still yields a verifying signature for the list (the message is
+    # then not bound, by construction, so the other-message negatives do not apply there)
+    sigsup = sh.index not in (6, 13)
+    tag = '' if sigsup else '/no-signature-support'
+    sc.setup(0, l, sigsup)
     keys = []
     for h in range(sh.pick(4, 24)):
         ent = c11.random_entries(None, rng, l, True)
@@ -34,7 +38,9 @@ def worker(sh):
                     keys.append((k3, pat3, 'resample'))
 
     def verify(sid, ent, msg, expect, why):
-        sc.add('verify %d 0 %s %s' % (sid, alist(ent), idhex(msg)), 'verify', expect=expect, why=why)
+        # in a list handed to verify the omit-from-keys flag has no meaning: value entries carrying it count all the same
+        flagged = {i for i, v in ent if v is not None and rng.random() < 0.5} if rng.random() < 0.25 else ()
+        sc.add('verify %d 0 %s %s' % (sid, alist(ent, False, None, flagged), idhex(msg)), 'verify', expect=expect, why=why)
 
     for kid, pat, op in keys:
         fl = fixed_list(pat)
@@ -49,14 +55,14 @@ def worker(sh):
             null_ok = mode == 1 and not sub and rng.random() < 0.5
             sc.add('sign %d %d 0 %s %s %d %d %s' % (sid, kid, 'null' if null_ok else alist(ext), idhex(msg), sc.seed(), mode, alist(ext)), 'sign', mode=mode)
             how = 'sign_precomputed' + ('(null list)' if null_ok else '') if mode else 'sign'
-            verify(sid, ext, msg, 1, 'positive/%s' % how)
+            verify(sid, ext, msg, 1, 'positive/%s%s' % (how, tag))
             if msg + R < (1 << 256):
-                verify(sid, ext, msg + R, 1, 'positive/message+r')
+                verify(sid, ext, msg + R, 1, 'positive/message+r' + tag)
             eq = [(i, v + R if v + R < (1 << 256) else v) for i, v in ext]
             verify(sid, eq, msg, 1, 'positive/list-equal-mod-r')
             # negatives
             m2 = (msg + rng.choice(NZ)) % (1 << 256)
-            if (m2 - msg) % R:
+            if (m2 - msg) % R and sigsup:
                 verify(sid, ext, m2, 0, 'other-message')
             d = dict(ext)
             if d:
@@ -133,8 +139,8 @@ def run(ctx):
                 'representatives; negatives (each a real difference mod r): other message, value changed, slot dropped, slot added, hidden slot set, fixed slot with another value, '
                 'each signature component altered; all three verdicts must agree with the expectation. class = reason')
     ctx.extra['configs'] = cfgs
-    ctx.assumptions = ['library pairing as instrument', 'parameters with signature support (without it the message is not bound by construction)']
-    need = ['verify|positive/sign', 'verify|positive/sign_precomputed', 'verify|positive/sign_precomputed(null list)', 'verify|positive/message+r', 'verify|other-message', 'verify|list:value-changed',
+    ctx.assumptions = ['library pairing as instrument', 'message negatives only for parameters with signature support (without it the message is not bound by construction); positives for both']
+    need = ['verify|positive/sign/no-signature-support', 'verify|positive/sign_precomputed/no-signature-support', 'verify|positive/sign', 'verify|positive/sign_precomputed', 'verify|positive/sign_precomputed(null list)', 'verify|positive/message+r', 'verify|other-message', 'verify|list:value-changed',
             'verify|list:slot-dropped', 'verify|list:slot-added', 'verify|incompatible:hidden-slot-set', 'verify|incompatible:fixed-slot-other-value', 'verify|signature:component-1', 'verify|signature:component-2']
     for r in need:
         if not any(k.startswith(r) for k in ctx.classes):
